@@ -323,6 +323,11 @@ func checkUnmarshalC18(c *h.Ctx, typ, in string) {
 	// "garbage": not a string at all, or a string that cannot denote a value of
 	// any spelling (fewer than 5 characters, or no digit).
 	mustErr := !isString || len(content) < 5 || !strings.ContainsAny(content, "0123456789")
+	// ... or a string with a character no datetime text of any type contains
+	// (a well-formed value followed by anything else is not a value)
+	if strings.Trim(content, "0123456789-+:.TZ ") != "" {
+		mustErr = true
+	}
 	for _, via := range []string{"direct", "json.Unmarshal"} {
 		mustErr := mustErr
 		if in == "null" && via != "direct" {
@@ -512,6 +517,12 @@ func runC18(c *h.Ctx) {
 		`"2023-08-15T12:34:56Z"`, `"2023-08-15T12:34:56+01"`, `"2023-08-15T12:34:56+01:00"`, `"2023-08-15T12:34:56.123456789-07:00"`, `"2023-08-15 12:34:56"`,
 		`"+"`, `"-"`, `"+1"`, `"-----"`, `"+++++++++"`, `"        +"`, `"12:34:5"`, `"1:2:3"`, `"99:99:99"`, `"2023-13-45"`, `"0000-00-00"`, `"10000-01-01"`, `"-0001-01-01"`,
 		`"2023-08-15T12:34:56+01:00:00"`, `"2023-08-15T24:00:00"`, `"é"`, `"😀"`}
+	// a well-formed value (of maximal length for its type) followed by something else
+	for _, v := range []string{"2024-04-29", "15:11:38", "15:11:38.123456789", "14:15:31.123456789+01:22", "14:15:31+01:22", "2024-04-29T15:11:38", "2024-04-29T15:11:38.123456789", "2024-04-29T15:11:38+02:30", "2024-04-29T15:11:38.123456789+02:30", "2024-04-29T15:11:38Z"} {
+		for _, tail := range []string{" or thereabouts", "x", " UTC", "é", "Zulu", " or-01:22", "T", "Z", " ", "+01:00", "0", ".5", "-", ":00", "T15:11:38+02:30", " 15:11:38", "\u0000", "[", "\n"} {
+			tokens = append(tokens, `"`+v+tail+`"`)
+		}
+	}
 	idx := 0
 	for _, typ := range typs {
 		for _, tk := range tokens {
